@@ -705,16 +705,33 @@ func (f *Facts) ge0Facts() []*Poly {
 			out = append(out, c.P, c.P.Neg())
 		}
 	}
-	// min/max atoms: min(a,b) <= a, b; max(a,b) >= a, b; min of non-negatives is non-negative
-	seenMM := map[string]bool{}
-	var mm []*Term
+	// structural knowledge about opaque atoms: len/cap are non-negative; min(a,b) <= a, b; max(a,b) >= a, b;
+	// min of non-negatives, max with a non-negative, a running max from a non-negative start, ceildiv of a
+	// non-negative by a positive and an if-then-else of non-negatives are non-negative
+	seen := map[string]bool{}
+	var atoms []*Term
+	var visit func(t *Term)
+	visit = func(t *Term) {
+		if t == nil || seen[t.Key()] {
+			return
+		}
+		seen[t.Key()] = true
+		for _, a := range t.Args {
+			visit(a)
+		}
+		switch t.Op {
+		case OpMin, OpMax, OpCeilDiv, OpFold, OpIte, OpRem, OpDiv:
+			atoms = append(atoms, t) // children first
+		case OpAtom:
+			if strings.HasPrefix(t.Name, "len(") || strings.HasPrefix(t.Name, "cap(") {
+				atoms = append(atoms, t)
+			}
+		}
+	}
 	collect := func(p *Poly) {
 		for _, mo := range p.m {
 			for _, f := range mo.factors {
-				if (f.Op == OpMin || f.Op == OpMax) && len(f.Args) == 2 && !seenMM[f.Key()] {
-					seenMM[f.Key()] = true
-					mm = append(mm, f)
-				}
+				visit(f)
 			}
 		}
 	}
@@ -726,16 +743,48 @@ func (f *Facts) ge0Facts() []*Poly {
 	for _, q := range f.extra {
 		collect(q)
 	}
-	for _, t := range mm {
-		m, a, b := polyAtom(t), normInt(t.Args[0]), normInt(t.Args[1])
-		if t.Op == OpMin {
+	for _, t := range atoms {
+		if !isIntLike(t.Typ) && t.Op != OpAtom {
+			continue
+		}
+		m := polyAtom(t)
+		switch t.Op {
+		case OpAtom:
+			out = append(out, m)
+		case OpMin:
+			a, b := normInt(t.Args[0]), normInt(t.Args[1])
 			out = append(out, a.Sub(m), b.Sub(m))
 			if geIn(out, a) && geIn(out, b) {
 				out = append(out, m)
 			}
-		} else {
+		case OpMax:
+			a, b := normInt(t.Args[0]), normInt(t.Args[1])
 			out = append(out, m.Sub(a), m.Sub(b))
 			if geIn(out, a) || geIn(out, b) {
+				out = append(out, m)
+			}
+		case OpFold:
+			if t.Name == "max" && len(t.Args) == 2 && isIntLike(t.Args[0].Typ) && geIn(out, normInt(t.Args[0])) {
+				out = append(out, m)
+			}
+		case OpCeilDiv:
+			if geIn(out, normInt(t.Args[0])) && geIn(out, normInt(t.Args[1]).AddInt(-1)) {
+				out = append(out, m)
+			}
+		case OpRem:
+			// a >= 0, b >= 1: 0 <= a mod b <= b-1 and a mod b <= a
+			a, b := normInt(t.Args[0]), normInt(t.Args[1])
+			if geIn(out, a) && geIn(out, b.AddInt(-1)) {
+				out = append(out, m, b.AddInt(-1).Sub(m), a.Sub(m))
+			}
+		case OpDiv:
+			// a >= 0, b >= 1: 0 <= a/b <= a, b*(a/b) <= a <= b*(a/b) + b - 1
+			a, b := normInt(t.Args[0]), normInt(t.Args[1])
+			if geIn(out, a) && geIn(out, b.AddInt(-1)) {
+				out = append(out, m, a.Sub(m), a.Sub(b.Mul(m)), b.Mul(m).Add(b).AddInt(-1).Sub(a))
+			}
+		case OpIte:
+			if isIntLike(t.Args[1].Typ) && isIntLike(t.Args[2].Typ) && geIn(out, normInt(t.Args[1])) && geIn(out, normInt(t.Args[2])) {
 				out = append(out, m)
 			}
 		}
